@@ -30,6 +30,8 @@ class Gen:
         self.n = 0
         self.owner = []             # Arbiter value still held
         self.stopped = []           # stop() called on it
+        self.selfstopped = []       # a self-stopping task is known to have started (awaited)
+        self.kind_of = {}
         self.lsrc = []              # some stop source for it exists (stop(), self-stopping task)
         self.cov = []               # created before any exit source
         self.exit_src = False
@@ -43,6 +45,7 @@ class Gen:
         self.ops.append("n:" + self.r.choice(["s", "s", "f"]))
         self.owner.append(True)
         self.stopped.append(False)
+        self.selfstopped.append(False)
         self.lsrc.append(False)
         self.cov.append(not self.exit_src)
         self.limit.append(-1 if self.exit_src else None)
@@ -67,6 +70,7 @@ class Gen:
         fn = "sf" if (kind != "p" and r.random() < 0.4) else "sp"
         tid = len(self.ops)
         self.ops.append("%s:%d:%s:%s" % (fn, k, kind, r.choice(VIA_A)))
+        self.kind_of[tid] = kind
         if k < self.n:
             self.awaitable.append((k, tid))
             if kind == "s":
@@ -88,14 +92,19 @@ class Gen:
         self.limit[k] = -1
 
     def sysstop(self):
-        self.ops.append("ss:%d:%s" % (self.r.choice(CODES), self.r.choice(VIA_S)))
+        c = self.r.choice(CODES)
+        self.ops.append("ss:%d:%s" % (c, self.r.choice(VIA_S)))
+        if self.r.random() < (0.4 if self.flavour == "c09" else 0.15):
+            # a second stop right behind the first, with another code: the first must win
+            c2 = self.r.choice([x for x in CODES if x != c])
+            self.ops.append("ss:%d:%s" % (c2, self.r.choice(VIA_S)))
         self.exit_src = True
         self.direct = True
         for j in range(self.n):
             self.limit[j] = -1
 
     def must_join(self, k):
-        return self.stopped[k] or (self.cov[k] and self.direct)
+        return self.stopped[k] or self.selfstopped[k] or (self.cov[k] and self.direct)
 
     def step(self):
         r = self.r
@@ -107,6 +116,16 @@ class Gen:
             return self.new() if r.random() < 0.8 else self.spawn()
         x = r.random()
         k = r.randrange(self.n)
+        if r.random() < (0.03 if c09 else 0.08) and self.owner[k] and self.limit[k] is None and len(self.ops) <= 9:
+            # Arbiter::current().stop() from a task: once it has started the arbiter ends, later sends never start
+            tid = self.spawn(k, "s")
+            self.ops.append("aw:%d:%d" % (k, tid))
+            self.selfstopped[k] = True
+            if r.random() < 0.5:
+                self.spawn(k, "c")
+            self.ops.append("j:%d" % k)
+            self.owner[k] = False
+            return
         if x < (0.40 if c09 else 0.55):
             return self.spawn()
         if x < (0.50 if c09 else 0.67):
@@ -130,8 +149,11 @@ class Gen:
             return
         aw = [(kk, t) for kk, t in self.awaitable if self.limit[kk] is None or t <= self.limit[kk]]
         if aw and x < 0.97:
-            kk, tid = r.choice(aw)
+            ss = [(kk, t) for kk, t in aw if self.kind_of[t] == "s" and not self.selfstopped[kk]]
+            kk, tid = r.choice(ss) if ss and r.random() < 0.7 else r.choice(aw)
             self.ops.append("aw:%d:%d" % (kk, tid))
+            if self.kind_of[tid] == "s":
+                self.selfstopped[kk] = True
             return
         return self.spawn()
 
@@ -344,7 +366,7 @@ def shrink(ctx, pid, case, budget=40, reps=8):
             if cand is None:
                 continue
             budget -= 1
-            f = fails(ctx, pid, rw, cand, [seed + 3 * j for j in range(reps)] + [seed + 3 * j + 1 for j in range(reps // 2)])
+            f = fails(ctx, pid, rw, cand, [seed + 4 * j for j in range(reps)] + [seed + 4 * j + 1 for j in range(reps // 2)] + [seed + 4 * j + 2 for j in range(reps // 2)])
             if f:
                 toks = cand
                 best = f
@@ -367,7 +389,7 @@ def check(ctx, pid):
     flavour = pid.lower()
     quick = ctx.tier == "quick"
     n_scripts = 300 if quick else 5000
-    timings = 3
+    timings = 4
     corpus = load_corpus(pid, "rt")
     scripts = []
     seen = set()
@@ -378,7 +400,7 @@ def check(ctx, pid):
             scripts.append(s)
     cases = list(corpus)
     for i, s in enumerate(scripts):
-        base = ctx.rng.randrange(1, 10 ** 6) * 3
+        base = ctx.rng.randrange(1, 10 ** 6) * 4
         userun = (i % 4 == 0)
         for t in range(timings):
             cases.append(case_line(s, base + t, userun))
